@@ -137,6 +137,7 @@ impl Knobs {
         }
         if cfg!(miri) {
             k.allow_file = false;
+            k.allow_mmap = false;
             k.force_file = false;
             k.w_reopen = 0;
             k.max_steps = 60;
@@ -173,6 +174,9 @@ pub struct Hist<'o> {
     pub watch_slots: Vec<Option<usize>>,
     pub truncated: bool,
     pub truncated_since_clear: bool,
+    pub resync: bool,
+    pub foreign_viols: u32,
+    pub tmp_recycled: bool,
     pub closed: bool,
 }
 
@@ -201,6 +205,11 @@ pub fn masked_eq(a: &[u8], b: &[u8], cfg: &Cfg) -> bool {
         return false;
     }
     if !cfg.effective_unify() {
+        if cfg!(miri) {
+            // the unused byte between the reserved prefix and the data area is never written
+            let r = cfg.reserved as usize;
+            return a[..r] == b[..r] && a[r + 1..] == b[r + 1..];
+        }
         return a == b;
     }
     let h = (((cfg.reserved + 7) & !7) + 8) as usize;
@@ -246,7 +255,16 @@ impl<'o> Hist<'o> {
     }
 
     pub fn viol(&mut self, props: &[&str], sig: &str, msg: String) {
-        self.failed = true;
+        // A violation of the property under check ends the history.  A violation of another
+        // property is reported (its own check will judge it) and the history goes on with the
+        // model re-synchronised from the implementation, so that consequences for the property
+        // under check (e.g. an overlap that a wrong release causes later) can still be observed.
+        if props.contains(&self.knobs.prop.as_str()) || self.foreign_viols > 20 {
+            self.failed = true;
+        } else {
+            self.foreign_viols += 1;
+            self.resync = true;
+        }
         let mut d = self.ctx();
         d.set("message", msg);
         d.set("replay_args", format!("seq --prop {} --seed {} --only {}", self.knobs.prop, self.seed, self.index));
@@ -301,6 +319,17 @@ impl<'o> Hist<'o> {
         let n = self.runners.len();
         let st0 = self.runners[0].state();
         let snap0 = self.runners[0].snap();
+        if self.resync {
+            self.resync = false;
+            self.model.cursor = st0.allocated;
+            self.model.cap = st0.cap;
+            self.model.min_seg = st0.min_seg;
+            self.model.discarded = st0.discarded;
+            self.model.list = snap0.nodes.iter().map(|x| (x.0, x.1)).collect();
+            if self.model.cursor > self.model.high_water {
+                self.model.high_water = self.model.cursor;
+            }
+        }
         // (1) primary vs model (quantities the properties pin down are checked where they change;
         //     here: consistency of the adopted model with the implementation)
         if st0.allocated != self.model.cursor || st0.cap != self.model.cap || st0.min_seg != self.model.min_seg {
